@@ -224,7 +224,7 @@ Proof.
     - rewrite (Hkey k' i w eq_refl). exists i. cbn [wk flag]. repeat split; auto.
       + apply upd_same.
       + intros u N. now apply upd_other.
-    - exists (slen x k). cbn [wk flag]. repeat split; auto.
+    - eexists. cbn [wk flag]. repeat split; auto.
       + apply upd_same.
       + intros u N. now apply upd_other. }
   destruct Hreg as (i0 & Ht & Hother & Hflag).
